@@ -58,6 +58,15 @@ Proof. vm_compute. reflexivity. Qed.
 (* the loops of add() are the modelled ones; in particular the loop that compares the hint iterates the candidate list *)
 Lemma hint_loop_over_candidates : hint_loop_okb Gen_Members.add_loops Gen_Members.hint_loops = true.
 Proof. vm_compute. reflexivity. Qed.
+
+(* ... and the only test involving the hint is the equality `hint == t.get_name()` *)
+Lemma hint_test_is_equality : hint_test_okb Gen_Members.hint_tests = true.
+Proof. vm_compute. reflexivity. Qed.
+
+(* methods that are read-only by their name write nothing on self (so __eq__, which compares the instance dictionaries, keeps
+   agreeing with the model's equality on member fields) - apart from the ones listed as a known finding *)
+Lemma read_only_helpers_write_nothing_new : readers_write_nothing_newb Gen_Members.reader_writes = true.
+Proof. vm_compute. reflexivity. Qed.
 """
 
 WRONG = "no_such_member_xyz"
@@ -311,6 +320,91 @@ def other_member_hint_cases(T, mir):
     return cases
 
 
+def near_hint_cases(T, mir):
+    """fixed, both tiers: for every pair with >= 2 candidates and every candidate name c, hints that CONTAIN or resemble c without
+    being it - c+' ', ' '+c, 'x'+c, c+'x', '<Parent>.'+c, c.upper(), c[:-1], and c1+c2, c1+','+c2, c1+' '+c2 for two candidates -
+    must raise and leave the parent unchanged (the hint names a member by equality).  One history per hint."""
+    cases = []
+    for p in mir.order:
+        by = {}
+        for m in mir.members(p):
+            if mir.dt(m) in T.C:
+                by.setdefault(mir.dt(m), []).append(m["name"])
+        for c, cand in sorted(by.items()):
+            if len(cand) < 2:
+                continue
+            base, _ = one_member_variants(T, c)
+            hints = []
+            for n in cand:
+                hints += [n + " ", " " + n, "x" + n, n + "x", p + "." + n, n.upper(), n[:-1], "not_" + n]
+            for a in cand:
+                for b in cand:
+                    if a != b:
+                        hints += [a + b, a + "," + b]
+            seen = set()
+            for h in hints:
+                if h in cand or h in seen or not h:
+                    continue
+                seen.add(h)
+                calls = [{"child": {"kind": "obj", "tree": base}, "hint": h, "force": f, "validate": False,
+                          "mark": "matrix:hint-resembles-a-candidate"} for f in ((False, True) if len(seen) % 4 == 1 else (len(seen) % 2 == 0,))]
+                cases.append({"enabled": False, "parent": {"cls": p, "kw": []}, "calls": calls})
+    return cases
+
+
+TOUCH_PREFERRED = ["Connection", "ConnectionWD", "Input", "InputW", "ExplicitInput", "Instance", "ElectricalConnection",
+                   "ElectricalConnectionInstance", "ElectricalConnectionInstanceW", "ContinuousConnection", "ContinuousConnectionInstance",
+                   "ContinuousConnectionInstanceW", "SynapticConnection", "Population", "Projection", "Network", "Segment", "SegmentGroup",
+                   "InputList", "Cell"]
+
+
+def touched_duplicate_cases(ck, tab, T, mir):
+    """fixed, both tiers: "a child equal to one already present is refused unless forced" must not depend on read-only calls made
+    in between.  For every class with hand-written read-only helpers (translators/tr_helpers.py: __str__, __repr__, summary,
+    get_* ...; one-argument ones such as get_by_id are called with an id that does not exist) and a list member of some parent that
+    takes it: schema-valid, realistic children (paths like ../pop/0/cell), and histories in which the new child and / or the stored
+    one went through those helpers, or through a refused re-add of the very same object (whose warning formats it with str())."""
+    import random
+    from checks import c09
+    vg = c09.ValidGen(tab, T, random.Random(0))
+    readers = (getattr(ck, "helpers", None) or {}).get("readers", {})
+    classes = [c for c in TOUCH_PREFERRED if c in readers and c in T.C] + sorted(c for c in readers if c in T.C and c not in TOUCH_PREFERRED)
+    cases, used = [], []
+    for c in classes:
+        where = [(p, m) for p in mir.order for m in mir.targets(p, c) if m["container"]]
+        if not where:
+            continue
+        where.sort(key=lambda pm: (len(mir.targets(pm[0], c)) != 1, pm[0] not in ("Projection", "InputList", "Network", "Population",
+                                                                                  "ElectricalProjection", "ContinuousProjection")))
+        p, m = where[0]
+        hint = m["name"] if len(mir.targets(p, c)) > 1 else None
+        kw = []
+        for k, v in vg.kwargs(c, depth=1, optional=1.0):
+            if k.endswith("cell_id") or k in ("target", "destination") and isinstance(v, dict) and "s" in v:
+                v = {"s": "../pop/0/cell"}
+            if v is None or any(t in v for t in ("s", "i", "f")):
+                kw.append([k, v])
+        tree = {"cls": c, "kw": kw}
+        meths = []
+        for name in readers[c]:
+            if [name, []] not in meths:
+                meths.append([name, []])
+        for name in ("get_by_id",):
+            meths.append([name, ["no_such_id_xyz"]])
+        used.append(c)
+
+        def call(child, force=False, **extra):
+            return dict({"child": child, "hint": hint, "force": force, "validate": False, "mark": "touched-duplicate"}, **extra)
+        new = lambda: {"kind": "obj", "tree": tree}  # noqa
+        for calls in ([call(new()), call(new(), touch=meths)],
+                      [call(new()), call(new(), touch_stored=meths)],
+                      [call(new()), call({"kind": "same", "index": 0}), call(new()), call(new())],
+                      [call(new()), call(new(), touch=meths, touch_stored=meths), call(new(), force=True), call(new(), touch=meths[:1])]):
+            cases.append({"enabled": False, "parent": {"cls": p, "kw": []}, "calls": calls})
+    ck.extra["touched_duplicate_classes"] = used
+    return cases
+
+
 def related_type_pairs(mir):
     """(parent, child class, members, "ancestor"/"descendant"): the parent has NO member of the child's exact type but has members
     typed with an ancestor class of the child, resp. with a class derived from the child's - computed from the tables"""
@@ -530,7 +624,17 @@ def predicate(ck, sv, mir, case, res, enabled):
             now = field_of(cur, target)
             if dup and not force:
                 if r["changed"] or [2, target] not in r["warn"]:
-                    bad("C10:duplicate-not-refused", "an equal child is already in %s: expected a warning and no change" % target)
+                    left = [x for c_ in case["calls"][:j + 1] for x in ()] or []
+                    for rr in res["calls"][:j + 1]:
+                        left += rr.get("touch_left") or []
+                    if left:
+                        bad("C10:read-only-call-defeats-duplicate-refusal:%s.%s" % (left[0][0], left[0][1]),
+                            "an equal %s is already in %s, but after the read-only call %s.%s() (which left %s in the instance "
+                            "dictionary, compared by __eq__) add() no longer recognises it: %s"
+                            % (child_cls, target, left[0][0], left[0][1], left[0][2],
+                               "stored without warning" if r["changed"] else "no warning"), expected="a warning and no change")
+                    else:
+                        bad("C10:duplicate-not-refused", "an equal child is already in %s: expected a warning and no change" % target)
             else:
                 ok = isinstance(now, dict) and "l" in now and now["l"][:-1] == slot["l"] and now["l"] and now["l"][-1] == value \
                     and held.get(target, 0) == held_before.get(target, 0) + 1
@@ -616,6 +720,15 @@ def coq_diff(ck, pairs, label, fixed=True):
         for m in re.finditer(r"\((\d+)%nat, \((\d+)%nat, (\d+)%nat\)\)", results[0] if results else ""):
             i, j, bits = int(m.group(1)), int(m.group(2)), int(m.group(3))
             case, res = part[i]
+            # the correspondence presupposes that read-only helpers write nothing on the instance; where the harness saw one write
+            # that is a registered known finding (reported by the predicate as a witness with that key), the model's verdict on the
+            # duplicate is not expected to match
+            left = [x for rr in res["calls"][:j + 1] for x in (rr.get("touch_left") or [])]
+            known = set(d_.get("key") for d_ in ck.known)
+            if left and all("%s:read-only-call-defeats-duplicate-refusal:%s.%s" % (ck.pid if ck.pid == "C10" else "C10", x[0], x[1]) in known
+                            or ("C10:read-only-call-defeats-duplicate-refusal:%s.%s" % (x[0], x[1])) in known for x in left):
+                ck.tally("disagreement-explained-by-known-finding:read-only-call")
+                continue
             which = [nm for b_, nm in ((1, "parent-after"), (2, "outcome"), (4, "warnings"), (8, "log-records"), (16, "returned")) if bits & b_]
             ck.disagree("Super.add_with[" + "+".join(which) + "]",
                         {"parent": case["parent"], "enabled": case["enabled"], "earlier_calls": case["calls"][:j], "call": case["calls"][j]},
@@ -657,6 +770,16 @@ def switch_translate(ck):
     return d
 
 
+def helpers_translate(ck):
+    p = subprocess.run([PY, os.path.join(VERIF, "translators", "tr_helpers.py")], capture_output=True, text=True, env=impl_env(), timeout=300)
+    try:
+        d = json.loads(p.stdout.strip().splitlines()[-1])
+    except Exception:  # noqa
+        d = {"writes": [["?", "?", ["tr_helpers failed"]]], "readers": {}, "counted": 0, "errors": ["tr_helpers failed: " + p.stderr[-500:]]}
+    ck.oblige("translate:tr_helpers", not d["errors"], "; ".join(d["errors"][:10]), kind="translate")
+    return d
+
+
 def build_tables(ck, with_eq=False):
     tab = bindings.translate(ck)
     if tab is None:
@@ -667,7 +790,8 @@ def build_tables(ck, with_eq=False):
     sig = supersig_translate(ck)
     ck.supersig = sig
     ck.switch_shape = switch_translate(ck)
-    if not supergen.gen_members(ck, tab, [] if eq["errors"] else eq["excluded"], sig, ck.switch_shape):
+    ck.helpers = helpers_translate(ck)
+    if not supergen.gen_members(ck, tab, [] if eq["errors"] else eq["excluded"], sig, ck.switch_shape, ck.helpers):
         return None
     S = schema_translate(ck)
     if S is None:
@@ -723,6 +847,12 @@ def run(ck):
     ck.extra["related_type_only_pairs"] = {"ancestor": sum(1 for x in related_type_pairs(mir) if x[3] == "ancestor"),
                                            "descendant": sum(1 for x in related_type_pairs(mir) if x[3] == "descendant")}
     fixed_matrix.extend(related)
+    near = near_hint_cases(T, mir)
+    ck.extra["hint_resembles_candidate_histories"] = len(near)
+    fixed_matrix.extend(near)
+    touched = touched_duplicate_cases(ck, tab, T, mir)
+    ck.extra["touched_duplicate_histories"] = len(touched)
+    fixed_matrix.extend(touched)
     others = other_member_hint_cases(T, mir)
     ck.extra["hint_names_another_member_histories"] = len(others)
     fixed_matrix.extend(others)
